@@ -220,6 +220,23 @@ func runC15(r *run) {
 			got := h.Enabled(ctx, logslog.Level(sl))
 			r.emit(fmt.Sprintf("C15 E %d %s %d", int(lg.l.Level()), b01(is.DebugMode()), sl), b01(got))
 		}
+		optLevel, relevelled := int(opts.Level), false
+		if g.chance(1, 3) {
+			// the logger's level is changed after the handler was built: the handler keeps following the logger
+			nl := c02LoggerLevels[g.intn(len(c02LoggerLevels))]
+			lg.l.SetLevel(slog.Level(nl))
+			optLevel, level0, relevelled = 0, nl, true
+			for _, sl := range []int{-4, 0, 4, 8, -8, 2, 12, 16} {
+				got := h.Enabled(ctx, logslog.Level(sl))
+				r.emit(fmt.Sprintf("C15 E %d %s %d", int(lg.l.Level()), b01(is.DebugMode()), sl), b01(got))
+				if std := c15StdName(sl); std != "" {
+					if want := lg.l.Enabled(slog.Level(map[string]int{"debug": 5, "info": 4, "warning": 3, "error": 2}[std])); got != want {
+						r.violate(violation{What: "after a later SetLevel on the logger the handler's Enabled no longer answers as the logger's gate does",
+							Input: map[string]any{"options": fmt.Sprintf("%+v", *opts), "logger_level_set_afterwards": nl, "logslog_level": sl}, Expected: fmt.Sprint(want), Actual: fmt.Sprint(got)})
+					}
+				}
+			}
+		}
 		for call := 0; call < 4; call++ {
 			sl := c15SlogLevels[g.intn(len(c15SlogLevels))]
 			msg := strings.NewReplacer("<", "(", "&", "+").Replace(g.encMessage(true, false))
@@ -249,9 +266,9 @@ func runC15(r *run) {
 					obs = "payloads-differ"
 				}
 			}
-			r.emit(strings.Join(strings.Fields(fmt.Sprintf("C15 H %s %s %d %d %s %d %s %s %s %d %d %s %s SA %s", b01(opts.NoColor), b01(opts.JSON), int(opts.Level), level0,
+			r.emit(strings.Join(strings.Fields(fmt.Sprintf("C15 H %s %s %d %d %s %d %s %s %s %d %d %s %s SA %s", b01(opts.NoColor), b01(opts.JSON), optLevel, level0,
 				b01(is.DebugMode()), sl, hxs(tsText), hxs(lg.name), hxs(msg), tagW, minW, lg.wspec, b01(via), strings.Join(sattrTokens(attrs), " "))), " "), obs)
-			desc := map[string]any{"options": fmt.Sprintf("%+v", *opts), "logger_level_before": level0, "logslog_level": sl, "message": fmt.Sprintf("%q", msg),
+			desc := map[string]any{"options": fmt.Sprintf("%+v", *opts), "logger_level_before": level0, "logger_level_set_after_the_handler_was_built": relevelled, "logslog_level": sl, "message": fmt.Sprintf("%q", msg),
 				"attrs": strings.Join(sattrTokens(attrs), " "), "through_slog_logger": via, "writers": lg.wspec, "time": tsText}
 			kinds := map[string]bool{}
 			sattrKinds(attrs, kinds, false)
